@@ -101,6 +101,7 @@ type request struct {
 
 // world is the configuration of one handler.
 type world struct {
+	noHome  bool                // derived per case: the handler has no home-NetID lookup (documented default: unknown)
 	Devices []device            `json:"devices"`
 	KEKs    map[string]evid.Hex `json:"keks,omitempty"` // label -> KEK (NS label = SenderID)
 }
@@ -498,7 +499,7 @@ func judge(w *world, rq *request, status int, ansBody []byte, acceptK4 bool) ver
 	// negative cases
 	want := "Success"
 	switch {
-	case !d.Known:
+	case !d.Known || w.noHome && rq.Flow == flowHomeNS:
 		want = "UnknownDevEUI"
 	case rq.Flow == flowJoin && rq.Neg != negNone:
 		want = "MICFailed"
@@ -656,7 +657,9 @@ func checkOne(c oneCase) evid.Outcome {
 	}
 	// the handler configuration varies with the transaction id: optional callbacks omitted where their documented
 	// default answers the same; a label lookup that fails for devices it does not know
-	opt := handlerOpt{omitOptional: c.Req.TxID&1 == 1, homeUnused: c.Req.Flow != flowHomeNS, strictLabel: c.Req.TxID&2 == 2, emptyNotNil: c.Req.TxID&4 == 4, bareKeys: c.Req.TxID&8 == 8}
+	// a HomeNSReq to a handler without the (optional) home-NetID lookup: the documented default answers "unknown"
+	c.world.noHome = c.Req.Flow == flowHomeNS && c.Req.TxID&1 == 1 && c.Req.TxID&16 == 16
+	opt := handlerOpt{omitOptional: c.Req.TxID&1 == 1, homeUnused: c.Req.Flow != flowHomeNS || c.world.noHome, strictLabel: c.Req.TxID&2 == 2, emptyNotNil: c.Req.TxID&4 == 4, bareKeys: c.Req.TxID&8 == 8}
 	h := newHandlerOpt(&c.world, opt)
 	d := c.dev(&c.Req)
 	var status int
@@ -670,7 +673,7 @@ func checkOne(c oneCase) evid.Outcome {
 		return evid.Outcome{Violation: v.viol, Class: class + "/" + v.result + "/violation"}
 	}
 	if len(c.Rekey) == 16 && c.Req.Dev >= 0 && c.Req.Dev < len(c.Devices) && !(c.Req.Neg == negWrongKey && bytes.Equal(c.Req.WrongKey, c.Rekey)) {
-		w2 := world{Devices: append([]device{}, c.Devices...), KEKs: c.KEKs}
+		w2 := world{Devices: append([]device{}, c.Devices...), KEKs: c.KEKs, noHome: c.world.noHome}
 		d2 := &w2.Devices[c.Req.Dev]
 		d2.NwkKey = append(evid.Hex{}, c.Rekey...)
 		app := make(evid.Hex, 16)
